@@ -47,7 +47,7 @@ CONSTANTS
   NPackets,   \* number of distinct sealed blocks
   MaxPresent, \* bound on presentations
   MaxClean,   \* bound on clean-ups
-  MaxSkew,    \* client clock skew, ticks (-MaxSkew..MaxSkew), MaxSkew < W
+  MaxSkew,    \* client clock skew, ticks (-MaxSkew..MaxSkew); W-1 in the replayed histories, W is checked too
   Dev         \* set of deviation flags, see above
 
 Blocks   == 1..NPackets
